@@ -250,6 +250,7 @@ type cgCfg struct {
 	Init    [][]string `json:"init"`     // [resource][node] canonical value on disk at start
 	Force   int        `json:"force"`    // ResourceForceUpdateSeconds
 	MidJump bool       `json:"mid_jump"` // simulated time may pass inside a batch (slow cgroupfs)
+	Crash2  bool       `json:"crash2"`   // also enumerate the crash points of every restarted rewrite (second order)
 }
 
 type cgOp struct {
@@ -397,6 +398,8 @@ var cgPatterns = []string{"keep", "shrink", "grow", "shift", "unlimit", "mixed"}
 func cgDerive(g *sim.Rng, d *cgResDef, parents []int, old []cgVal, pattern string) []cgVal {
 	t := make([]cgVal, len(old))
 	t[0] = old[0]
+	// half of the CPU-set rewrites keep every cgroup's old and new set nested (one contains the other) wherever possible
+	nested := d.isSet && pattern != "shift" && g.Bool(0.6)
 	for i := 1; i < len(old); i++ {
 		p := t[parents[i]]
 		m := pattern
@@ -424,6 +427,13 @@ func cgDerive(g *sim.Rng, d *cgResDef, parents []int, old []cgVal, pattern strin
 			}
 			if t[i] == 0 {
 				t[i] = cgSubset(g, p)
+			}
+			if nested && t[i]&^o != 0 && o&^t[i] != 0 {
+				if o&^p == 0 {
+					t[i] |= o // grow instead
+				} else if o&p != 0 {
+					t[i] = o & p // shrink instead
+				}
 			}
 		} else {
 			le := func(x cgVal) cgVal {
@@ -478,6 +488,7 @@ func (cgEngine) Generate(p *sim.Plan, g *sim.Rng) {
 	cfg.Parents = cgGenTree(g, maxNodes)
 	cfg.Force = g.PickInt(60, 60, 60, 1, 10, 300)
 	cfg.MidJump = g.Bool(0.15)
+	cfg.Crash2 = g.Bool(0.1) || (thorough && g.Bool(0.4))
 	// which files exist / are rewritten: mostly one resource, sometimes several in one batch
 	perm := g.Perm(len(cgResDefs))
 	nres := g.PickInt(1, 1, 1, 2, 2, 3)
@@ -587,10 +598,10 @@ type cgWrite struct {
 // cgSub is one execution of the rewrite (the uninterrupted one, a restart at a crash point, a faulted attempt ...).
 type cgSub struct {
 	name     string
-	start    []cgVal        // tree at the beginning
-	target   map[int]cgVal  // file -> target (files addressed by an updater)
-	writes   []cgWrite      // successful writes in order
-	snaps    [][]cgVal      // tree after each write (only recorded for the uninterrupted run)
+	start    []cgVal       // tree at the beginning
+	target   map[int]cgVal // file -> target (files addressed by an updater)
+	writes   []cgWrite     // successful writes in order
+	snaps    [][]cgVal     // tree after each write (only recorded for the uninterrupted run)
 	keepSnap bool
 	inject   bool   // write failures / crashes may be injected in this execution
 	strict   bool   // the full statement applies (fault-free execution from a valid tree)
@@ -619,10 +630,10 @@ type cgH struct {
 
 type cgDeferred struct{ oracle, detail, msg string }
 
-func (h *cgH) fi(node, ri int) int      { return node*len(h.defs) + ri }
-func (h *cgH) nodeOf(fi int) int        { return fi / len(h.defs) }
-func (h *cgH) defOf(fi int) *cgResDef   { return h.defs[fi%len(h.defs)] }
-func (h *cgH) fname(fi int) string      { return fmt.Sprintf("n%d/%s", h.nodeOf(fi), h.defOf(fi).name) }
+func (h *cgH) fi(node, ri int) int         { return node*len(h.defs) + ri }
+func (h *cgH) nodeOf(fi int) int           { return fi / len(h.defs) }
+func (h *cgH) defOf(fi int) *cgResDef      { return h.defs[fi%len(h.defs)] }
+func (h *cgH) fname(fi int) string         { return fmt.Sprintf("n%d/%s", h.nodeOf(fi), h.defOf(fi).name) }
 func (h *cgH) show(fi int, v cgVal) string { return cgPlanString(h.defOf(fi).isSet, v) }
 
 func (h *cgH) filePath(node int, d *cgResDef) string {
@@ -766,8 +777,17 @@ func (h *cgH) call(w *cgW, pass string, do func() (ResourceUpdater, error)) (Res
 		r.Event("midjump %d", d)
 	}
 	m, err := do()
-	// Which file did the call write? Only the updater's own file is looked at after every call; the rest of the tree is
-	// verified untouched once per execution (run: "late"), which keeps the per-call cost independent of the tree size.
+	// Which file did the call write? In restart executions only the updater's own file is looked at after every call; the
+	// rest of the tree is verified untouched once per execution (run: "late"), which keeps the per-call cost independent
+	// of the tree size.
+	if s.keepSnap {
+		// executions whose per-write snapshots become crash points: look at the whole tree after every call
+		for _, o := range h.scan() {
+			if o != w.fi {
+				r.Fail("stray-write", h.defOf(o).name, "%s: the %s call for %s wrote %s", s.name, pass, h.fname(w.fi), h.fname(o))
+			}
+		}
+	}
 	if !h.touched(w.fi) {
 		r.Probe("call:" + pass + ":no-write")
 		r.Event("%s call %s %s nowrite err=%v", s.name, h.fname(w.fi), pass, err != nil)
@@ -945,9 +965,9 @@ func (h *cgH) stopAll() {
 
 type cgReq struct {
 	op     *cgOp
-	ris    []int           // index into h.defs for every op.Res entry
-	target map[int]cgVal   // file -> target for every file of the request's resources (including omitted nodes)
-	omit   map[int]bool    // nodes without updater
+	ris    []int         // index into h.defs for every op.Res entry
+	target map[int]cgVal // file -> target for every file of the request's resources (including omitted nodes)
+	omit   map[int]bool  // nodes without updater
 }
 
 // build creates fresh updaters (as a caller would on every reconcile round), wrapped, grouped by level.
@@ -1028,6 +1048,20 @@ func (h *cgH) run(e *ResourceUpdateExecutorImpl, q *cgReq, s *cgSub) {
 		}
 		if d.name == "cfs" && h.cfg.V2 && tv == cgInf && s.start[fi] != cgInf {
 			r.Tag("cfs-v2-to-unlimited")
+		}
+	}
+	if s.keepSnap {
+		for _, ri := range q.ris {
+			if !h.defs[ri].isSet {
+				continue
+			}
+			cls := "op:cpuset:all-nested"
+			for fi, tv := range addressed {
+				if fi%len(h.defs) == ri && s.start[fi]&^tv != 0 && tv&^s.start[fi] != 0 {
+					cls = "op:cpuset:has-neither-subset"
+				}
+			}
+			r.Probe(cls)
 		}
 	}
 	r.Event("%s begin", s.name)
@@ -1355,20 +1389,42 @@ func (h *cgH) crashEnumOp(exec *ResourceUpdateExecutorImpl, oi int, q *cgReq) {
 		r.Probe("main:all-skipped-by-cache")
 	}
 	r.Sample("op%d main: %d calls, %d writes", oi, main.calls, L)
-	for k := 0; k <= L; k++ {
-		h.restore(main.snaps[k])
+	// second-order crash points (a crash during the rewrite that follows a crash) for short sequences
+	depth := 1
+	if h.cfg.Crash2 && L <= 8 {
+		depth = 2
+	}
+	h.enumerate(q, main, onBad, depth)
+	h.restore(final)
+}
+
+// enumerate: for EVERY k in 0..L put the tree as it was after the k-th write of execution `of` back on disk and run a
+// fresh executor (empty ResourceCache) with the same request on it; all oracles of the statement apply to that run.
+func (h *cgH) enumerate(q *cgReq, of *cgSub, onBad string, depth int) {
+	r := h.r
+	for k := 0; k < len(of.snaps); k++ {
+		h.restore(of.snaps[k])
 		fresh := h.newExecutor()
-		s := &cgSub{name: fmt.Sprintf("op%d/restart@%d", oi, k), strict: true, onBad: onBad}
+		s := &cgSub{name: fmt.Sprintf("%s/restart@%d", strings.TrimSuffix(of.name, "/main"), k), strict: true, onBad: onBad, keepSnap: depth > 1}
 		h.run(fresh, q, s)
-		r.Probe("crashpoint:restart")
-		if len(s.writes) == 0 {
-			r.Probe("crashpoint:restart-no-write")
-		}
 		// the restarted agent is done with: its GC goroutine ends
 		close(h.stops[len(h.stops)-1])
 		h.stops = h.stops[:len(h.stops)-1]
+		if strings.Count(s.name, "/restart@") > 1 {
+			r.Probe("crashpoint:restart-second-order")
+		} else {
+			r.Probe("crashpoint:restart")
+		}
+		switch {
+		case len(s.writes) == 0 && k == len(of.snaps)-1:
+			r.Probe("crashpoint:restart-after-completion-no-write")
+		case len(s.writes) == 0:
+			r.Probe("crashpoint:restart-no-write")
+		}
+		if depth > 1 && len(s.writes) > 0 {
+			h.enumerate(q, s, onBad, depth-1)
+		}
 	}
-	h.restore(final)
 }
 
 func cgBucket(n int) string {
